@@ -436,7 +436,7 @@ func (s *mhSession) run(st *mhStmt, label, proto string, payload []byte, respKin
 		s.broken, s.timeout = true, true
 		return fr, false
 	case err != nil:
-		r.Violation(s.shape.sig("connection broke", "-", proto), s.shape.detail(map[string]interface{}{"err": err.Error()}))
+		r.Violation(fmt.Sprintf("mysql metadata history: connection broke during a valid message sequence: stmt=%s proto=%s config=%s %s", label, proto, s.cfgName, s.prof.Key()), s.shape.detail(map[string]interface{}{"err": err.Error()}))
 		s.broken = true
 		return fr, false
 	}
